@@ -17,7 +17,7 @@ miss=0; n=0
 for d in "${dirs[@]}"; do
   d=${d%/}; id=$(basename $d); p=${id%%-*}
   git -C $WT checkout -q -- . ; git -C $WT clean -fdq .
-  if ! git -C $WT apply $d/patch.diff 2>/dev/null; then echo "RESEED $id patch-does-not-apply"; miss=$((miss+1)); continue; fi
+  if ! git -C $WT apply "$PWD/$d/patch.diff" 2>/dev/null; then echo "RESEED $id patch-does-not-apply"; miss=$((miss+1)); continue; fi
   VERIF_REPO=$WT ./check.sh $p quick > /tmp/reseed-$id.log 2>&1; rc=$?
   sig=$(grep -m1 "signature:" /tmp/reseed-$id.log | cut -c1-150)
   n=$((n+1))
